@@ -62,6 +62,8 @@ else:
 ips = read("felix/ipsets/ipset_defs.go")
 max_ipset = int(need(re.search(r'^const MaxIPSetNameLength\s*=\s*(\d+)', ips, re.M), "MaxIPSetNameLength").group(1))
 ipset_pfx = need(re.search(r'^const IPSetNamePrefix\s*=\s*"([^"]*)"', ips, re.M), "IPSetNamePrefix").group(1)
+temp_tok = need(re.search(r'^\s*tempIpsetToken\s*=\s*"([^"]*)"', ips, re.M), "tempIpsetToken").group(1)
+temp_fmt = need(re.search(r'func \(c IPVersionConfig\) NameForTempIPSet\(n uint\) string \{\s*return ([^\n]*)\n', ips), "NameForTempIPSet body").group(1).strip()
 main_tok = need(re.search(r'^\s*mainIpsetToken\s*=\s*"([^"]*)"', ips, re.M), "mainIpsetToken").group(1)
 short = need(re.search(r'^const shortenedPrefix\s*=\s*"([^"]*)"', read("libcalico-go/lib/hash/unique_id.go"), re.M),
              "shortenedPrefix").group(1)
@@ -129,6 +131,8 @@ L = ["/- GENERATED by translate/c37/gen.py from %s — do not edit. -/" % repo,
      "def maxPolicyGroupUIDLength : Nat := %d" % grp_uid,
      "def ipSetNamePrefix : List Nat := %s  -- %r" % (lean_str(ipset_pfx), ipset_pfx),
      "def mainIpsetToken : List Nat := %s  -- %r" % (lean_str(main_tok), main_tok),
+     "def tempIpsetToken : List Nat := %s  -- %r" % (lean_str(temp_tok), temp_tok),
+     "def nameForTempIPSetExpr : String := \"%s\"" % temp_fmt,
      "def shortenedPrefix : List Nat := %s  -- %r" % (lean_str(short), short), ""]
 for n, v in dyn:
     L.append("def pfx_%s : List Nat := %s  -- %r" % (n, lean_str(v), v))
